@@ -148,12 +148,22 @@ def get_type_graph(t: type) -> graphlib.TopologicalSorter[TypeNode]:
                 or inspection.istypealiastype(child)
                 or hasattr(child, "__supertype__")
             )
+            # A qualified spelling of a class (`ClassVar[Node]`, `Final[Node]`) is cut
+            #   at the class it qualifies, walking it again would never terminate.
+            is_qualified = (
+                not is_named and unwrapped is not child and inspect.isclass(unwrapped)
+            )
             is_stdlib = inspection.isstdlibtype(unwrapped)
-            can_be_cyclic = is_named and is_stdlib is False
+            can_be_cyclic = (is_named or is_qualified) and is_stdlib is False
             # We detected a cyclic type,
             #   wrap in a ForwardRef and don't add it to the stack
             #   This will terminate this edge to prevent infinite cycles.
-            if is_visited and can_be_cyclic:
+            if is_visited and is_qualified and can_be_cyclic:
+                uref = refs.forwardref(
+                    unwrapped, is_argument=var is not None, is_class=True
+                )
+                node = TypeNode(child, uref, var=var, cyclic=True)
+            elif is_visited and can_be_cyclic:
                 is_argument = var is not None
                 is_class = inspect.isclass(child)
                 # The qualified name of a class may be dotted (a nested class),
